@@ -140,12 +140,18 @@ fn encode_case(em: &mut Emitter, mode: u8, data: &[u8], m2: u8, outer_indef: boo
 }
 
 fn hash_of<T: Hash>(t: &T) -> u64 { let mut h = DefaultHasher::new(); t.hash(&mut h); h.finish() }
+/// a hasher that records every call: a Hash impl must feed equal values identically,
+/// whatever the hasher does with the chunking of its input
+#[derive(Default)]
+struct RecHasher(Vec<Vec<u8>>);
+impl Hasher for RecHasher { fn finish(&self) -> u64 { 0 } fn write(&mut self, b: &[u8]) { self.0.push(b.to_vec()); } }
+fn hash_calls<T: Hash>(t: &T) -> Vec<Vec<u8>> { let mut h = RecHasher::default(); t.hash(&mut h); h.0 }
 
 fn cmp_case(em: &mut Emitter, a: &[u8], b: &[u8], ca: &[u8], cb: &[u8]) {
     em.case(1701, &[bytes_arg(a), bytes_arg(b)], || {
         let r = catch(|| {
             let (x, y) = (take_os(0, Tag::OCTET_STRING, a)?, take_os(0, Tag::OCTET_STRING, b)?);
-            Some((x == y, x.cmp(&y), hash_of(&x) == hash_of(&y), x.partial_cmp(&y)))
+            Some((x == y, x.cmp(&y), hash_of(&x) == hash_of(&y) && hash_calls(&x) == hash_calls(&y), x.partial_cmp(&y)))
         });
         match r {
             Some(Some((eq, ord, heq, pord))) => {
